@@ -164,7 +164,7 @@ def _kinds(ctx, acm):
     sync = acm.methods.get('_synchronize')
     term = acm.methods.get('_terminate')
     ctx.require(sync is not None and term is not None,
-                'AppCfgMgr._synchronize / _terminate')
+                'AppCfgMgr._synchronize / _terminate', rule='C13.1')
     ksync = Kinds(sync)
     kterm = Kinds(term, seeds={term.params()[1]: 'instance'})
     written = {}
@@ -200,7 +200,7 @@ def _kinds(ctx, acm):
                          kmon.kind(key))] = call
     ctx.require(len(written) >= 2 and tested,
                 'cleanup-directory writers (%s) and the existence test' %
-                sorted(str(k) for k in written))
+                sorted(str(k) for k in written), rule='C13.1')
     for (who, kind), call in sorted(written.items(),
                                     key=lambda kv: str(kv[0])):
         func = {'AppCfgMgr._synchronize': sync,
@@ -225,7 +225,7 @@ def _kinds(ctx, acm):
     terms = [n for n, c in K.nodes_calling(
         graph, lambda c: K.is_meth(c, '_terminate'))
         if n in K.loop_body_nodes(loop)]
-    ctx.require(terms, 'terminate decision in the resync loop')
+    ctx.require(terms, 'terminate decision in the resync loop', rule='C13.1')
 
     def same_container(edge):
         for atom in nz.facts_of_edge(edge):
@@ -310,7 +310,8 @@ def _terminal_files(ctx, sync, graph, loop):
     #                              container was handed to cleanup
     inner = [n for n in K.loop_body_nodes(loop) if n.kind == 'for' and
              isinstance(n.ast.iter, (ast.List, ast.Tuple))]
-    ctx.require(inner, 'loop over the terminal files in _synchronize')
+    ctx.require(inner, 'loop over the terminal files in _synchronize',
+        rule='C13.3')
     fl = inner[0]
     listed = set(e.value for e in fl.ast.iter.elts
                  if isinstance(e, ast.Constant))
@@ -321,7 +322,7 @@ def _terminal_files(ctx, sync, graph, loop):
     confs = [n for n, c in K.nodes_calling(
         graph, lambda c: K.is_meth(c, '_configure'))
         if n in K.loop_body_nodes(loop)]
-    ctx.require(confs, 'reconfigure of an existing container')
+    ctx.require(confs, 'reconfigure of an existing container', rule='C13.3')
     body = K.loop_body_nodes(fl)
     found = [n for n in body if n.kind == 'test' and
              'exists' in N.txt(n.ast)]
@@ -376,7 +377,7 @@ def _started_or_cleaned(ctx, sync, graph, loop):
     ctests = [n for n in body if n.kind == 'test' and
               'cleanup_dir' in K.test_text(sync, n) and
               'exists' in K.test_text(sync, n)]
-    ctx.require(ctests, 'in-cleanup test of the resync')
+    ctx.require(ctests, 'in-cleanup test of the resync', rule='C13.3')
     starts = [e.dst for t in ctests for e in t.succ
               if e.kind == 'false' and e.dst not in ctests]
     handover = [n for n in body if any(
@@ -384,7 +385,7 @@ def _started_or_cleaned(ctx, sync, graph, loop):
         'cleanup_dir' in K.rtxt(sync, c.args[0])
         for c in C.node_calls(n))]
     ctx.require(starts and handover, 'start-up branch and clean-up '
-                                     'hand-over of the resync')
+                                     'hand-over of the resync', rule='C13.3')
 
     def configured(edge):
         if edge.kind == 'true' and edge.src in ctests:
@@ -419,7 +420,8 @@ def _abort_flag_first(ctx):
                                               'os.replace'))]
     flags = [n for n, c in K.nodes_calling(
         graph, lambda c: K.callee_text(c).endswith('flag_aborted'))]
-    ctx.require(moves and flags, 'hand-over and abort flag in execute')
+    ctx.require(moves and flags, 'hand-over and abort flag in execute',
+        rule='C13.3')
     late = [f for f in flags for m in moves
             if f in C.reach_after(m, edge_ok=None)]
     ctx.ob('C13.3', func, flags[0], not late,
@@ -453,7 +455,7 @@ def _keep_running(ctx, acm, sync, graph, loop, cvar, ksync):
     cgraph = ctx.cfg(created)
     confs = [n for n, c in K.nodes_calling(
         cgraph, lambda c: K.is_meth(c, '_configure'))]
-    ctx.require(confs, '_configure in _on_created')
+    ctx.require(confs, '_configure in _on_created', rule='C13.4')
     for node in confs:
         ok = K.guarded_by(cgraph, node, lambda e: any(
             a.key[0] == 'truth' and not a.key[2] and
@@ -474,7 +476,8 @@ def _gating(ctx, acm):
                  'READY_FILE' in N.txt(n.ast)]
         dots = [n for n in graph.nodes if n.kind == 'test' and
                 "'.'" in N.txt(n.ast)]
-        ctx.require(ready and dots, 'ready / dot tests in %s' % fname)
+        ctx.require(ready and dots, 'ready / dot tests in %s' % fname,
+            rule='C13.5')
         for dot in dots:
             ok = K.guarded_by(graph, dot, lambda e: e.src in ready and
                               e.kind == 'false')
@@ -541,7 +544,7 @@ def _running_owner(ctx, acm):
                     n += 1
                     ctx.fail('C13.6', func, sub, 'a link is renamed into '
                                                  'the running directory')
-    ctx.require(n >= 1, 'creation of running links')
+    ctx.require(n >= 1, 'creation of running links', rule='C13.6')
 
 
 def _nothing_dropped(ctx, sync, graph, loop, cvar):
@@ -554,7 +557,7 @@ def _nothing_dropped(ctx, sync, graph, loop, cvar):
     pops += [n for n in body if n.kind == 'stmt' and
              isinstance(n.ast, ast.Delete) and
              cmap + '[' in N.txt(n.ast)]
-    ctx.require(pops, 'removal from the to-configure map')
+    ctx.require(pops, 'removal from the to-configure map', rule='C13.7')
 
     def accounted(edge):
         for atom in nz.facts_of_edge(edge):
@@ -644,7 +647,7 @@ def _generation_id(ctx):
         return out
     rets = [sub for sub in K.walk_no_nested(func.node)
             if isinstance(sub, ast.Return) and sub.value is not None]
-    ctx.require(rets, 'return of gen_uniqueid')
+    ctx.require(rets, 'return of gen_uniqueid', rule='C13.1')
     for ret in rets:
         src = sources(ret.value, set())
         times = src & {'st_ctime', 'st_ctime_ns', 'st_mtime', 'st_mtime_ns'}
